@@ -2,6 +2,11 @@ SPECIFICATION TraceSpec
 CONSTANTS
   MaxIds = 1000000
   MaxOps = 1
+  IdSpace = 12
+  Objs = {1, 2, 3}
+  SkipLive = TRUE
+  NeedBurn = FALSE
+  MustBurn = FALSE
   KeepHist = FALSE
 INVARIANTS TrackL CacheCoherent NoDupCache LookupAbstract FreshIds
 POSTCONDITION Verdict
